@@ -27,9 +27,10 @@ def noGenericsB (t : Tab) : Bool :=
 def wellFormedB (v2 : Bool) (t : Tab) : Bool :=
   t.nodes.toList.all fun gn =>
     match gn with
-    | .named und _ _ ou =>
+    | .named und ms _ ou =>
       (isAliasUnder (t.facts.node und) || (shape v2 (t.facts.node und)).isSome) &&
-      (isAliasUnder (t.facts.node und) || !(v2 && isStructOrIface (t.facts.node und)) || (shape v2 (t.facts.node ou)).isSome)
+      (isAliasUnder (t.facts.node und) || !(v2 && isStructOrIface (t.facts.node und)) || (shape v2 (t.facts.node ou)).isSome) &&
+      decide ((ms.map (·.name)).Nodup) && ms.all (fun m => (shape v2 (t.facts.node m.sig)).isSome)
     | .iface ms =>
       -- method names are distinct and method signatures are unnamed type nodes
       decide ((ms.map (·.name)).Nodup) && ms.all (fun m => (shape v2 (t.facts.node m.sig)).isSome)
